@@ -2,7 +2,7 @@
 import vcheck, json
 
 PID = "C15"
-MODULES = ["BeffVerif.Props.C15"]
+MODULES = ["BeffVerif.Props.C15", "BeffVerif.Props.C15Decl"]
 AUDIT = "BeffVerif/Audit/C15.lean"
 TAGS = ("c15.",)
 HYP = {"NoMixedIndexObject": "D43", "NoTemplateAlternation": "D24c", "NoNamingNearUnion": "D11", "NoNamedIntersectionMember": "D39", "NoNamedSharedKeyInIntersection": "D39b", "NoNamingWithRecursion": "D41"}
